@@ -16,14 +16,14 @@ import (
 
 // Ctx lazily loads and caches everything the rules analyse.
 type Ctx struct {
-	Tier string
-	src  *variants.Source
-	std  *variants.Std
-	g    *load.G
-	skel *skeleton.Gen
-	vars map[string]*variants.Variant
+	Tier     string
+	src      *variants.Source
+	std      *variants.Std
+	g        *load.G
+	skel     *skeleton.Gen
+	vars     map[string]*variants.Variant
 	absCache map[string]*absVariant
-	R    *ob.Report
+	R        *ob.Report
 }
 
 func NewCtx(tier string, r *ob.Report) *Ctx {
@@ -201,8 +201,8 @@ func hasSuffixAny(s string, suf ...string) bool {
 
 func sprintf(f string, a ...any) string { return fmt.Sprintf(f, a...) }
 
-// guardsOf returns the conditions of the if statements enclosing pos inside root, outermost first;
-// a condition is prefixed with "!(" ")" when pos lies in the else arm.
+// guardsOf returns the conditions of the if statements enclosing pos inside root, outermost first, in the normal
+// form of canonCond; for a position in the else arm the condition is negated (in normal form as well).
 func guardsOf(root ast.Node, pos token.Pos) []string {
 	var out []string
 	ast.Inspect(root, func(n ast.Node) bool {
@@ -215,9 +215,9 @@ func guardsOf(root ast.Node, pos token.Pos) []string {
 		if is, ok := n.(*ast.IfStmt); ok {
 			switch {
 			case is.Body.Pos() <= pos && pos < is.Body.End():
-				out = append(out, strings.ReplaceAll(types.ExprString(is.Cond), " ", ""))
+				out = append(out, canonCond(is.Cond, false))
 			case is.Else != nil && is.Else.Pos() <= pos && pos < is.Else.End():
-				out = append(out, "!("+strings.ReplaceAll(types.ExprString(is.Cond), " ", "")+")")
+				out = append(out, canonCond(is.Cond, true))
 			}
 		}
 		return true
